@@ -552,13 +552,20 @@ fn lsp_position(text: &str, off: usize) -> (u64, u64) {
 }
 
 fn lsp_range_problems(w: &World, spelling: usize) -> Vec<(String, String)> {
+    let docs = lsp_docs(w, spelling);
+    lsp_range_core(&docs, if spelling == 5 { Some(w.text()) } else { None })
+}
+
+/// The published range of every diagnostic of the documents (uri, path, text) against the label's position
+/// counted independently (line = line feeds before it, column = UTF-16 units since the last one).
+/// `opened_before`: the first document was open before with this text and higher version numbers.
+pub fn lsp_range_core(docs: &[(String, String, String)], opened_before: Option<String>) -> Vec<(String, String)> {
     use crate::lspx::{did_change, did_open, MemSrv, Server, Status};
     use ironplcc::project::{FileBackedProject, Project};
-    let docs = lsp_docs(w, spelling);
     let order: Vec<usize> = (0..docs.len()).collect();
     // expected: the labels of Project::semantic() on the same documents, converted independently
     let mut p = FileBackedProject::new();
-    for (_, path, text) in &docs {
+    for (_, path, text) in docs {
         p.change_text_document(&front::fid(path), text.clone());
     }
     ironplcc::verif::set_order(Some(order.clone()));
@@ -573,9 +580,8 @@ fn lsp_range_problems(w: &World, spelling: usize) -> Vec<(String, String)> {
     let mut srv = MemSrv::new(Some(order));
     let mut last: Vec<Option<Value>> = vec![None; docs.len()];
     let mut steps: Vec<(usize, Value)> = docs.iter().enumerate().map(|(i, d)| (i, did_open(&d.0, 1, &d.2))).collect();
-    if spelling == 5 {
+    if let Some(before) = opened_before {
         // the document was open before with another text and a higher version (version numbers are the client's)
-        let before = w.text();
         steps = vec![(0, did_open(&docs[0].0, 7, &before)), (0, did_change(&docs[0].0, 9, &[before.as_str()])), (0, did_open(&docs[0].0, 1, &before)), (0, did_change(&docs[0].0, 2, &[docs[0].2.as_str()]))];
     }
     if docs.len() > 1 {
